@@ -461,7 +461,8 @@ def _bodytouch(e):
 
 
 # ------------------------------------------------------------------------------------------ R03.2
-def panics(ctx, typestate_ok, body_inv_ok=False):
+def panics(ctx, typestate_ok, body_inv_ok=False, scope=None):
+    """scope: only report sites in functions whose name starts with one of these prefixes (used by C09 for the server)."""
     facts = ctx.facts
     tables = {}
     for name, adt in (("common::Method::raw", "common::Method"), ("common::Version::raw", "common::Version")):
@@ -492,6 +493,8 @@ def panics(ctx, typestate_ok, body_inv_ok=False):
     loopfn = conn.parse_loop_fn(ctx)
     n_sites = n_ok = n_env = n_assumed = 0
     for k, s, ok, npaths, why in pa.verdicts():
+        if scope is not None and not s.fn.startswith(tuple(scope)):
+            continue
         n_sites += 1
         key = "%s|%s" % (s.fn.split("::")[-1] if not s.fn.endswith("}") else s.fn.split("::", 2)[-1], s.key)
         full_key = "%s|%s" % (s.fn, s.key)
@@ -520,6 +523,9 @@ def panics(ctx, typestate_ok, body_inv_ok=False):
             continue
         ctx.fail("R03.2", "site|" + full_key, "cannot prove that this cannot panic: %s (%s; %d path(s))" % (s.desc, why or "obligation not entailed", npaths), s.loc)
     floor = 40 if facts.raw.get("overflow_checks") else 30
+    if scope is not None:
+        ctx.ob("R03.2", "inventory|floor", n_sites >= 5, "%d panic-capable sites enumerated in the functions in scope %s (floor 5): %d proved, %d environment" % (n_sites, list(scope), n_ok, n_env))
+        return
     ctx.ob("R03.2", "inventory|floor", n_sites >= floor, "%d panic-capable sites enumerated in %d functions (floor %d for this profile): %d proved, %d environment, %d assumed" % (n_sites, nfn, floor, n_ok, n_env, n_assumed))
     ctx.ob("R03.2", "assumed|none", n_assumed == 0, "%d site(s) assumed rather than proved" % n_assumed)
     # callee classification
